@@ -144,15 +144,21 @@ def sketchy_axis_step(o, ndim, G, V, e, tail, property_discount=True):
               rho=cutoff ** 2, top=top)
 
 
-def sketchy_direction(x, axes):
+def sketchy_direction(x, axes, dtype=np.float64):
   """axes: list of dict(V, inv, inv_tail) per dim. Applies
-  inv_tail (I - V V^T) + V diag(inv) V^T along every axis."""
-  g = np.asarray(x, np.float64)
+  inv_tail (I - V V^T) + V diag(inv) V^T along every axis, in the order of
+  operations of the documented low-rank application (project, complement,
+  rescale). dtype=float32 gives a rounding-sensitivity probe."""
+  g = np.asarray(x, dtype)
   for ax, a in enumerate(axes):
-    V = np.asarray(a['V'], np.float64)
-    d = V.shape[0]
-    M = a['inv_tail'] * (np.eye(d) - V @ V.T) + (V * a['inv']) @ V.T
-    g = np.moveaxis(np.tensordot(M, g, axes=([1], [ax])), 0, ax)
+    V = np.asarray(a['V'], dtype)
+    inv = np.asarray(a['inv'], dtype)
+    it = dtype(a['inv_tail'])
+    gm = np.moveaxis(g, ax, 0)
+    low = np.tensordot(V.T, gm, axes=([1], [0]))          # V^T g
+    comp = gm - np.tensordot(V, low, axes=([1], [0]))      # g - V V^T g
+    out = np.tensordot(V * inv, low, axes=([1], [0])) + it * comp
+    g = np.moveaxis(out, 0, ax)
   return g
 
 
